@@ -288,11 +288,11 @@ func scenario(x *explore.X, bin string) {
 	}
 	// readiness (liveness guard only)
 	ready := false
-	for i := 0; i < 200 && !ready; i++ {
+	for i := 0; i < 2400 && !ready; i++ { // up to a minute on an overloaded machine; a healthy start takes 100-300 ms
 		select {
 		case err := <-exited:
 			exited <- err
-			i = 1000
+			i = 1 << 30
 		default:
 		}
 		if c, err := net.DialTimeout("tcp", "127.0.0.1:"+proxyPort, 100*time.Millisecond); err == nil {
@@ -325,7 +325,7 @@ func scenario(x *explore.X, bin string) {
 	oaddr := "127.0.0.1:" + origin.port()
 	var clientVisible []string
 	// ---- successful exchanges ----
-	r1 := exchange(paddr, useTLS, "GET http://"+oaddr+"/ok?token=visible HTTP/1.1\r\nHost: "+oaddr+"\r\n"+proxyAuth+"Connection: close\r\n\r\n", 3*time.Second)
+	r1 := exchange(paddr, useTLS, "GET http://"+oaddr+"/ok?token=visible HTTP/1.1\r\nHost: "+oaddr+"\r\n"+proxyAuth+"Connection: close\r\n\r\n", 15*time.Second)
 	if !strings.HasPrefix(r1, "HTTP/1.1 200") {
 		x.Failf("harness/exchange", "%s: plain GET did not succeed: %q\n%s", what, r1, out.String())
 	}
@@ -342,13 +342,13 @@ func scenario(x *explore.X, bin string) {
 	if carrier == "api-basic-auth" {
 		apiAuth = "Authorization: Basic " + base64.StdEncoding.EncodeToString([]byte("apiuser:"+secret)) + "\r\n"
 	}
-	configz := exchange("127.0.0.1:"+apiPort, false, "GET /configz HTTP/1.1\r\nHost: api\r\n"+apiAuth+"Connection: close\r\n\r\n", 3*time.Second)
+	configz := exchange("127.0.0.1:"+apiPort, false, "GET /configz HTTP/1.1\r\nHost: api\r\n"+apiAuth+"Connection: close\r\n\r\n", 15*time.Second)
 	if !strings.HasPrefix(configz, "HTTP/1.1 200") {
 		x.Failf("harness/configz", "%s: /configz answered %q", what, configz)
 	}
 	// ---- failing exchanges: only what the client sees is in scope (and the logs unless log-http=errors) ----
 	if carrier == "basic-auth" {
-		r := exchange(paddr, useTLS, "GET http://"+oaddr+"/ HTTP/1.1\r\nHost: "+oaddr+"\r\nProxy-Authorization: Basic "+base64.StdEncoding.EncodeToString([]byte("user1:wrong"))+"\r\nConnection: close\r\n\r\n", 3*time.Second)
+		r := exchange(paddr, useTLS, "GET http://"+oaddr+"/ HTTP/1.1\r\nHost: "+oaddr+"\r\nProxy-Authorization: Basic "+base64.StdEncoding.EncodeToString([]byte("user1:wrong"))+"\r\nConnection: close\r\n\r\n", 15*time.Second)
 		if !strings.HasPrefix(r, "HTTP/1.1 407") {
 			x.Failf("harness/exchange", "%s: wrong credentials answered %q", what, r)
 		}
